@@ -15,7 +15,7 @@ from props import common
 from props.kernel_common import heap_item, q, bfail, bok, random_dag, eval_plan
 
 PROP = 'C04'
-FUNCS = ['Simulator.topologicalSort', 'Simulator.propagateAll', 'Simulator.findFirstDependentPosition']
+FUNCS = ['Simulator.topologicalSort', 'Simulator.propagateAll', 'Simulator.findFirstDependentPosition', 'HWSystem.getSimulator']
 
 
 def settle(seed=0, n=30, **kw):
@@ -70,6 +70,28 @@ def settle(seed=0, n=30, **kw):
     return bok('settling::random-dags#bounded', evals, 'settling on random DAGs')
 
 
+def late(seed=0, n=20, **kw):
+    """blocks added after the simulator was first obtained (at top level or inside a structural container): after the next
+    getSimulator() and a clock call every wire must again hold the order-independent value"""
+    import py4hw
+    rnd = random.Random(seed); evals = 0
+    for it in range(n):
+        size = rnd.choice([2, 3, 6, 12]); width = rnd.choice([1, 4, 8])
+        s, ins, plan = random_dag(rnd, size, width, 'random', late=True)
+        cvals = {id(w): rnd.getrandbits(width) for w in ins}
+        # the primary inputs are driven from outside (put): no further top-level block is added after the late ones
+        sim = q(s.getSimulator)
+        for w in ins: w.put(cvals[id(w)])
+        q(sim.clk, 1)
+        ref0 = eval_plan(plan, cvals, width); evals += 1
+        for kind, a, b, o_ in plan:
+            for o in (o_ if isinstance(o_, tuple) else (o_,)):
+                if o.get() != ref0[id(o)]:
+                    return bfail('settling::late-additions#bounded', evals, {'seed': seed, 'iteration': it, 'size': size, 'inputs': [cvals[id(w)] for w in ins], 'wire': o.name},
+                                 ref0[id(o)], o.get(), 'HWSystem.getSimulator / Simulator.topologicalSort')
+    return bok('settling::late-additions#bounded', evals, 'blocks added after the first getSimulator()')
+
+
 def cycles(seed=0, **kw):
     """cyclic netlists are refused; acyclic ones are accepted (completeness, bounded)"""
     import py4hw
@@ -113,15 +135,17 @@ def main(tier, seed, only=None):
     t0 = time.time()
     n = 24 if tier == 'quick' else 240
     items = [('props.kernel_common:heap_item', dict(qual=f, timeout_s=30 if tier == 'quick' else 120)) for f in FUNCS]
-    items += [('props.C04:settle', dict(seed=seed * 100 + k, n=n // 8)) for k in range(8)] + [('props.C04:cycles', dict(seed=seed))]
+    items += [('props.C04:settle', dict(seed=seed * 100 + k, n=n // 8)) for k in range(8)] + [('props.C04:cycles', dict(seed=seed))] + [('props.C04:late', dict(seed=seed * 10 + k, n=n // 4)) for k in range(4)]
     items = common.filter_only(items, only)
     res = run.run_items(items)
-    return run.finish(PROP, tier, res, t0, level='proof', seed=seed, functions=['py4hw/simulation.py::' + f for f in FUNCS],
+    return run.finish(PROP, tier, res, t0, level='proof', seed=seed, functions=['py4hw/simulation.py::' + f for f in FUNCS[:3]] + ['py4hw/base.py::HWSystem.getSimulator'],
                       assumptions=['abstract leaf contract (L1): propagate() writes only wires driven by the block, re-establishes the block\'s own output/input agreement, and can invalidate only blocks that read one of its outputs; each concrete leaf is proved to refine it in C07/C08/C09 (frame obligations)',
-                                   'findFirstDependentPosition is proved against the contract the sorter uses (least position of a dependent, -1 if none), with dep defined as: a propagatable block reading a wire driven by an output port; its requires (the evaluation list is duplicate-free and holds every propagatable block) are established by the first loop of topologicalSort, which is NOT proved (assumed)',
+                                   'findFirstDependentPosition is proved against the contract the sorter uses (least position of a dependent, -1 if none), with dep defined as: a propagatable block reading a wire driven by an output port; its requires (the evaluation list holds every propagatable block) are established by the first loop of topologicalSort and kept by the exchanges of the sorting loops: proved (invariants of all three loops), from the assumed contract of allLeaves (every propagatable object is among the leaves it returns)',
+                                   'HWSystem.getSimulator returns, on every path, a simulator whose evaluation list is sorted and holds every propagatable leaf (proved from the contracts of Simulator(sys) and topologicalSort; coverage is proved in topologicalSort from the assumed contract of allLeaves)',
                                    'allLeaves / isClockable / isPropagatable / getOrCreateClockDriverSimulator / addClockable: frames assumed as declared in contracts/kernel.py',
                                    'uniqueness of the fixpoint and rejection of cycles of length >= 2 follow from strict sortedness by induction along the order / along a closed walk (meta-steps, DESIGN 4/C04)',
                                    common.dropped_note()],
                       bounded_parts=[{'what': 'random DAGs (1..30 gates) x instantiation orders (random, reversed, forward): sortedness, findFirstDependentPosition vs independent computation, settled values vs order-independent evaluation at creation and after clk', 'netlists': n},
+                                     {'what': 'late additions: random DAGs whose blocks are instantiated partly after a first getSimulator(), at top level or inside structural containers; values after the next getSimulator() + clk(1)'},
                                      {'what': 'rejection of cycles of length 1,2,3,4,6; completeness on reversed chains of 10..1100 blocks'}],
                       trusted_extra=['heap-mode VC generator pvc/heap.py'], canary_ok=work.canary(), min_obligations=10)
